@@ -140,8 +140,9 @@ def coq_nodes(nodes):
 def idx_check(ctx, reply, want_oids, fmt, name):
     """git's verdict on the pack of a reply: None if fine, else (class, reason)"""
     ex = reply.get("extra") or {}
-    if not reply["out"].startswith("( ok"):
-        return ("none", "encoder/reader failed: %s %s" % (reply["out"], str(ex.get("error"))[:200]))
+    if not ex.get("pack"):
+        return ("none", "no pack produced: %s %s" % (reply["out"], str(ex.get("error"))[:200]))
+    # git decides; what the harness's own pack reader says only feeds the comparison with the model
     pack = bytes.fromhex(ex["pack"])
     ok, res = G.index_pack(ctx.tmp, pack, name=name, strict=True, fmt=fmt)
     if not ok:
@@ -154,7 +155,7 @@ def idx_check(ctx, reply, want_oids, fmt, name):
     ok, vp = G.verify_pack(ctx.tmp, name=name, fmt=fmt)
     if not ok:
         return ("none", "git verify-pack fails: " + vp.strip()[:160])
-    if "( trailer true )" not in reply["out"]:
+    if reply["out"].startswith("( ok") and "( trailer true )" not in reply["out"]:
         return ("none", "trailer is not the checksum of the pack / not the hash Encode returned")
     ex["_maxdepth"] = max([v[3] for v in vp] or [0])
     return None
@@ -233,8 +234,8 @@ class Graph(Suite):
 
     def _dup_check(self, ctx, r, want, fmt, c):
         # the same object handed over as two ObjectToPack values is the caller's doing (custom selector): only structure is checked
-        if not r["out"].startswith("( ok"):
-            return ("none", "encoder/reader failed: %s" % r["out"])
+        if not (r.get("extra") or {}).get("pack"):
+            return ("none", "no pack produced: %s" % r["out"])
         ok, res = G.index_pack(ctx.tmp, bytes.fromhex(r["extra"]["pack"]), name="g%d" % c["id"], strict=False, fmt=fmt)
         if ok and sorted(res) == sorted(want):
             return None
